@@ -13,6 +13,7 @@ import (
 	"github.com/plgd-dev/go-coap/v3/net/blockwise"
 	"github.com/plgd-dev/go-coap/v3/net/monitor/inactivity"
 	"github.com/plgd-dev/go-coap/v3/options"
+	"github.com/plgd-dev/go-coap/v3/pkg/verifhook"
 	client "github.com/plgd-dev/go-coap/v3/tcp/client"
 )
 
@@ -53,6 +54,7 @@ func setupCSMExchangeHandler(cfg *client.Config, cc *client.Conn) chan struct{} 
 			case <-csmExchangeDone:
 				// already closed
 			default:
+				verifhook.Yield("tcp.csmExchange.beforeClose", 0)
 				close(csmExchangeDone)
 			}
 		}
